@@ -75,9 +75,10 @@ def run(ctx):
     rep = ctx.report
     prog = ctx.prog("default")
     rep.rule("TMR-1", "every port-state transition carries the timer requests its target state needs on every path", floor=13)
-    rep.rule("TMR-2", "periodic senders re-arm their own timer on every return path of their active state", floor=5)
+    rep.rule("TMR-2", "periodic senders (and the receipt-timeout handler) re-arm their timer on every return path of their active state", floor=6)
     rep.rule("TMR-3", "initial announce-receipt timer request exists and end_bmca returns pending_action", floor=2)
     rep.rule("TMR-4", "multiport-disable age written back = old age + step", floor=1)
+    rep.rule("TMR-6", "the duration of every timer request comes from that timer's own configuration item", floor=14)
     rep.rule("TMR-5", "end_bmca hands out the timer requests recorded during the BMCA (lifecycle.pending_action) and "
                       "start_bmca/end_bmca keep port_state, config and multiport_disable", floor=2)
     fc.check_lifecycle_transfer(rep, prog, "TMR-5", fields={"port_state", "config", "multiport_disable"},
@@ -137,6 +138,17 @@ def run(ctx):
     except AnchorMissing as e:
         rep.anchor_missing("TMR-2", str(e))
 
+    # the receipt-timeout handler itself: when it does not make the port Master it must re-arm the receipt timer,
+    # also when the port already is Listening (otherwise a slave-only port waits on a timer nobody armed)
+    try:
+        b = prog.one(name="handle_announce_receipt_timer", self_name="Port", crate="statime-lib")
+        check_rearm(rep, prog, b, None, ("ResetAnnounceReceiptTimer", "ResetAnnounceTimer"), None)
+    except AnchorMissing as e:
+        rep.anchor_missing("TMR-2", str(e))
+
+    # ---- TMR-6
+    check_durations(rep, prog)
+
     # ---- TMR-3
     try:
         b = prog.one(name="new", self_name="Port", crate="statime-lib")
@@ -186,6 +198,114 @@ def run(ctx):
         rep.anchor_missing("TMR-4", str(e))
 
 
+def _factors(t):
+    """flatten a product tree into its factors (casts stripped)"""
+    t = df.strip(t)
+    while t[0] == "cast":
+        t = df.strip(t[2])
+    if t[0] == "bin" and t[1] in ("Mul", "MulWithOverflow"):
+        return _factors(t[2]) + _factors(t[3])
+    if t[0] == "call" and t[2] == "mul" and len(t[3]) == 2:
+        return _factors(t[3][0]) + _factors(t[3][1])
+    return [t]
+
+
+def _zero_duration(c):
+    return c in ("from_secs(0)", "ZERO", "from_millis(0)", "from_nanos(0)", "from_micros(0)")
+
+
+def check_durations(rep, prog):
+    """TMR-6: the duration of every timer request is derived from the configuration item of THAT timer."""
+    import re
+    INTERVAL_OF = {"ResetAnnounceTimer": "self.config.announce_interval", "ResetSyncTimer": "self.config.sync_interval"}
+    n = 0
+    for b in sorted(prog.bodies.values(), key=lambda x: x.key):
+        if b.unit.name != "statime-lib" or b.is_test():
+            continue
+        pv = None
+        for bi, si, st in mir.iter_stmts(b):
+            r = st.get("r") if st["k"] == "assign" else None
+            if not r or r["k"] != "agg" or r.get("ak") != "adt" or not r.get("name", "").endswith("PortAction"):
+                continue
+            v = r.get("variant") or ""
+            if not v.startswith("Reset") or not v.endswith("Timer") or not r["ops"]:
+                continue
+            pv = pv or df.Prov(b)
+            tr = df.strip(pv.op_tree(r["ops"][0]))
+            c = df.canon(tr, b)
+            where = fc.where(b, st["sp"][1])
+            ok, why = False, ""
+            if v == "ResetAnnounceReceiptTimer":
+                ok = re.fullmatch(r"announce_duration\((self\.)?config, (self\.)?rng\)", c) is not None
+                why = "must be config.announce_duration(rng)"
+            elif v in INTERVAL_OF:
+                ok = _zero_duration(c) or c == "as_core_duration(%s)" % INTERVAL_OF[v]
+                why = "must be 0 (start immediately) or %s" % INTERVAL_OF[v]
+            elif v == "ResetDelayRequestTimer":
+                if _zero_duration(c):
+                    ok = True
+                elif tr[0] == "call" and tr[2] == "mul_f64" and len(tr[3]) == 2:
+                    base = df.strip(tr[3][0])
+                    fac = sorted(df.canon(x, b) for x in _factors(tr[3][1]))
+                    want_arg = {"send_e2e_delay_request": "E2E", "send_p2p_delay_request": "P2P"}.get(b.name)
+                    base_ok = base[0] == "call" and base[2] == "as_core_duration" and \
+                        df.strip(base[3][0]) == ("path", ("arg", 2), ()) and want_arg is not None
+                    fac_ok = fac == sorted(["2.0", "sample(self.rng, Open01{})"])
+                    ok = base_ok and fac_ok and delay_interval_callers(prog, b, want_arg)
+                why = "must be 0 or interval(of the port's delay mechanism) * U(0,1) * 2"
+            elif v == "ResetFilterUpdateTimer":
+                ok = c.endswith("next_update")
+                why = "must be the filter's next_update"
+            else:
+                why = "unknown timer request"
+            if ok:
+                n += 1
+                rep.ok("TMR-6", b.key, "%s duration" % v, detail=c, where=where)
+            else:
+                rep.violation("TMR-6", b.key, "%s duration" % v, "%s is requested with duration `%s`: %s" % (v, c, why),
+                              where=where)
+    # the receipt timeout itself
+    try:
+        ad = prog.one(name="announce_duration", self_name="PortConfig", crate="statime-lib")
+        tr = df.strip(df.Prov(ad).local_tree(0))
+        ok = False
+        c = df.canon(tr, ad)
+        if tr[0] == "call" and tr[2] == "mul_f64" and len(tr[3]) == 2:
+            base = df.canon(tr[3][0], ad)
+            fac = sorted(df.canon(x, ad) for x in _factors(tr[3][1]))
+            ok = base == "as_core_duration(self.announce_interval)" and \
+                fac == sorted(["add(1.0, sample(rng, Open01{}))", "self.announce_receipt_timeout"])
+        if ok:
+            rep.ok("TMR-6", ad.key, "announce receipt timeout", detail=c, where=ad.loc())
+        else:
+            rep.violation("TMR-6", ad.key, "announce receipt timeout",
+                          "announce_duration is `%s`; IEEE 1588 9.2.6.12: announceReceiptTimeout * announceInterval "
+                          "(times a random factor in (1,2))" % c, where=ad.loc())
+    except AnchorMissing as e:
+        rep.anchor_missing("TMR-6", str(e))
+
+
+def delay_interval_callers(prog, b, variant):
+    """every caller passes the `interval` bound from self.config.delay_mechanism's `variant` arm"""
+    okc = 0
+    for cb in prog.bodies.values():
+        if cb.unit.name != "statime-lib" or cb.is_test():
+            continue
+        for bi, t, c in mir.iter_calls(cb):
+            if (c.get("resolved") or c["key"]) == b.key or c["key"] == b.key:
+                pv = df.Prov(cb)
+                a = df.canon(pv.op_tree(t["args"][1]), cb)
+                cc = cnd.conds(prog, cb)
+                lits = [cnd.lit_canon(l, cb) for l in cc.must_literals(bi)]
+                if ("as %s" % variant) in a and "config.delay_mechanism" in a and a.endswith("interval"):
+                    okc += 1
+                elif any(("self.config.delay_mechanism in {%s}" % variant) == l for l in lits) and "interval" in a:
+                    okc += 1
+                else:
+                    return False
+    return okc > 0
+
+
 def check_rearm(rep, prog, b, states, timer, accept_call):
     c = cnd.conds(prog, b)
     g = mir.cfg(b)
@@ -204,7 +324,7 @@ def check_rearm(rep, prog, b, states, timer, accept_call):
                     t = df.strip(l[1])
                     if t[0] == "call" and t[2] == accept_call:
                         starts.append(s)
-    construct = "re-arm %s" % timer
+    construct = "re-arm %s" % (timer if isinstance(timer, str) else " or ".join(timer))
     # keep only the innermost gate edges: a gate computed into a bool temporary (matches!) shows up first at the
     # discriminant switch that defines the temporary and again at the switch on the temporary
     if isinstance(starts, list) and starts and starts != [0]:
@@ -221,7 +341,9 @@ def check_rearm(rep, prog, b, states, timer, accept_call):
     if not starts:
         rep.violation("TMR-2", b.key, construct, "cannot find the active-state gate of %s" % b.name, where=b.loc())
         return
-    through = {bi for (bi, v, ln) in fsm.action_sites(b) if v == timer}
+    alts = (timer,) if isinstance(timer, str) else tuple(timer)
+    through = {bi for (bi, v, ln) in fsm.action_sites(b) if v in alts}
+    timer = " or ".join(alts)
     excl = serialize_err_blocks(prog, b)
     wit = bypass_path(b, starts, through, excl)
     if wit is None:
